@@ -341,27 +341,36 @@ Definition digit_val (c : Z) : Z :=
   else if (97 <=? lower c) && (lower c <=? 102) then lower c - 97 + 10
   else 16.
 
+(* x > max || 0xD800 <= x && x < 0xE000 *)
+Definition esc_invalid (mx x : Z) : bool := (mx <? x) || ((55296 <=? x) && (x <? 57344)).
 (* the digit loop of scanEscape *)
 Fixpoint esc_loop (n : nat) (base mx offs : Z) (s : Sc) (x : Z) : bool * Sc :=
   match n with
-  | O => if (mx <? x) || ((55296 <=? x) && (x <? 57344)) then (false, err s offs E_ESC_RANGE) else (true, s)
+  | O => if esc_invalid mx x then (false, err s offs E_ESC_RANGE) else (true, s)
   | S n' =>
     let dv := digit_val (cur s) in
     if base <=? dv then (false, err s (off s) (if cur s <? 0 then E_ESC_EOF else E_ESC_CHAR))
     else esc_loop n' base mx offs (nxt s) (x * base + dv)
   end.
+(* case 'a', 'b', 'f', 'n', 'r', 't', 'v', '\\', quote *)
+Definition esc_simple (quote c : Z) : bool :=
+  (c =? 97) || (c =? 98) || (c =? 102) || (c =? 110) || (c =? 114) || (c =? 116) || (c =? 118) || (c =? 92) || (c =? quote).
+(* the numeric escapes: (n, base, max, does the case consume the letter with s.next()) *)
+Definition esc_numeric (c : Z) : option (Z * Z * Z * bool) :=
+  if (48 <=? c) && (c <=? 55) then Some (3, 8, 255, false)
+  else if c =? 120 then Some (2, 16, 255, true)
+  else if c =? 117 then Some (4, 16, 1114111, true)
+  else if c =? 85 then Some (8, 16, 1114111, true)
+  else None.
 (* scanEscape(quote): (ok, state) *)
 Definition scan_escape (quote : Z) (s : Sc) : bool * Sc :=
   let offs := off s in
   let c := cur s in
-  if (c =? 97) || (c =? 98) || (c =? 102) || (c =? 110) || (c =? 114) || (c =? 116) || (c =? 118)
-     || (c =? 92) || (c =? quote)
-  then (true, nxt s)
-  else if (48 <=? c) && (c <=? 55) then esc_loop 3 8 255 offs s 0
-  else if c =? 120 then esc_loop 2 16 255 offs (nxt s) 0
-  else if c =? 117 then esc_loop 4 16 1114111 offs (nxt s) 0
-  else if c =? 85 then esc_loop 8 16 1114111 offs (nxt s) 0
-  else (false, err s offs (if c <? 0 then E_ESC_EOF else E_ESC_UNKNOWN)).
+  if esc_simple quote c then (true, nxt s)
+  else match esc_numeric c with
+       | Some (n, base, mx, consume) => esc_loop (Z.to_nat n) base mx offs (if consume then nxt s else s) 0
+       | None => (false, err s offs (if c <? 0 then E_ESC_EOF else E_ESC_UNKNOWN))
+       end.
 
 (* scanString: opening quote consumed; offs = position of the quote *)
 Fixpoint scan_string (fuel : nat) (offs : Z) (s : Sc) : Sc :=
